@@ -512,6 +512,8 @@ def model_views(r, q, dev=0):
     for c in conts:
         for tag in TAGS:
             v.append(r.bytag(c, tag))
+    for c in conts:
+        v.append(r.descendants(c))
     ptr = r.par if dev & M.DETACHED_KEEPS_PARENT else r.clean_pointers(tp)
     topmost = bool(dev & M.COMPARE_TOPMOST_ANCESTOR)
     for a, b in pairs:
@@ -559,6 +561,8 @@ def impl_views(im, q, par):
     for c in conts:
         for tag in TAGS:
             v.append(guard(lambda: [idx(e) for e in N[c].getElementsByTagName(tag)]))
+    for c in conts:
+        v.append(guard(lambda: [idx(e) for e in N[c].allChildNodes]))
     for a, b in pairs:
         if a in bad or b in bad:
             v.append('cycle')       # the parentNode chain is a cycle: compareDocumentPosition would walk it forever
@@ -573,6 +577,7 @@ def view_labels(q):
     lab += ['previousSibling/nextSibling of %d' % x for x in nav]
     lab += ['textContent of %d' % c for c in conts]
     lab += ['getElementsByTagName(%r) on %d' % (tag, c) for c in conts for tag in TAGS]
+    lab += ['allChildNodes of %d' % c for c in conts]
     lab += ['%d.compareDocumentPosition(%d)' % p for p in pairs]
     return lab
 
